@@ -154,6 +154,9 @@ func TestVfC01(t *testing.T) {
 		c01Crashes(r)
 		r.Flush(false)
 	}
+	for i := 0; i < r.Pick(3, 12); i++ {
+		c01UnloadRace(r, e, rec, i)
+	}
 	n := r.Pick(6, 40)
 	for i := 0; i < n; i++ {
 		w := vfNewWorld(e, r, rng)
